@@ -111,19 +111,28 @@ NULL = NullType()
 
 
 def nullitemgetter(item, *items):
-    """An itemgetter() that replaces None values with NULL."""
+    """An itemgetter() that makes None values sort before anything else.
+
+    Values are paired with a flag that decides the comparison as soon
+    as one of the two values is None, thus None is never compared with
+    values of another type. Relying on a special object that compares
+    smaller than anything does not work for types whose comparison
+    methods do not return NotImplemented for foreign types, amounts for
+    example.
+
+    """
     if items:
         items = (item, *items)
         def func(obj):
             r = []
             for i in items:
                 value = obj[i]
-                r.append(value if value is not None else NULL)
+                r.append((value is not None, value))
             return tuple(r)
         return func
     def func(obj):
         value = obj[item]
-        return value if value is not None else NULL
+        return (value is not None, value)
     return func
 
 
